@@ -7,6 +7,7 @@ from sympy.physics.units import Dimension
 from sympy.physics.units.definitions.dimension_definitions import angle as angle_type
 
 from ..dimensions import assert_equivalent_dimension, dimensionless
+from ..dimensions.miscellaneous import is_any_dimension
 from ..symbols.quantities import Quantity, subs_list
 from ..symbols.id_generator import next_id
 from ..symbols.symbols import DimensionSymbol
@@ -122,7 +123,7 @@ class QuantityVector(DimensionSymbol):
         if dimension is None:
             dimension = dimensionless
             for q in quantities:
-                if q.scale_factor != 0:
+                if not is_any_dimension(q.scale_factor):
                     dimension = q.dimension
                     break
         scale_factors = []
